@@ -45,6 +45,10 @@ type c17 struct {
 	stopping bool
 	maxOps   int
 	seq      int
+	// naive: the input roots are materialised by NaiveBuildDirectory into
+	// an in-memory directory instead of being loaded lazily.
+	naive       bool
+	allowBroken bool
 	// NFS file handles of stateless leaves seen anywhere.
 	handles map[string]string
 
@@ -63,6 +67,7 @@ type action struct {
 	rootDag *dagDir
 	model   *mnode
 	merged  bool
+	naive   *naiveState
 	// gate: explorers share, edits are exclusive.
 	readers int
 	writer  bool
@@ -80,7 +85,9 @@ func newC17(r *simrun.Run) *c17 {
 	useNFS := t.Bool(1, 2)
 	w.faultFree = t.Bool(1, 3)
 	allowBroken := t.Bool(3, 4)
+	w.allowBroken = allowBroken
 	w.maxOps = 6 + t.Choice(20)
+	w.naive = t.Bool(1, 4)
 
 	root, ha, nfs, symlinkFactory := newTree(useNFS, w.clock)
 	w.root, w.ha, w.nfsAlloc, w.symlinks = root, ha, nfs, symlinkFactory
@@ -94,7 +101,7 @@ func newC17(r *simrun.Run) *c17 {
 	}
 	w.vbd = builder.NewVirtualBuildDirectory(root, w.fetcher, w.cas, symlinkFactory, nil, ha, noDefaultAttributes, w.clock)
 	w.vbd.InstallHooks(w.pool, w.logger)
-	r.Logf("config: handles=%s faultFree=%v brokenAllowed=%v directoryCache=%d maxOps=%d", map[bool]string{true: "NFS", false: "FUSE"}[useNFS], w.faultFree, allowBroken, cache, w.maxOps)
+	r.Logf("config: naive=%v handles=%s faultFree=%v brokenAllowed=%v directoryCache=%d maxOps=%d", w.naive, map[bool]string{true: "NFS", false: "FUSE"}[useNFS], w.faultFree, allowBroken, cache, w.maxOps)
 
 	w.g = generateDAG(t, w.cas, allowBroken, r.Logf)
 	na := 1 + t.Choice(2)
@@ -105,6 +112,12 @@ func newC17(r *simrun.Run) *c17 {
 			a.rootDag = w.g.dirs[len(w.g.dirs)-1]
 		} else {
 			a.rootDag = pick(t, w.g.dirs)
+		}
+		a.model = &mnode{kind: mDir, children: map[string]*mnode{}}
+		w.actions = append(w.actions, a)
+		if w.naive {
+			w.setupNaive(a)
+			continue
 		}
 		if err := w.vbd.Mkdir(comp(a.name), 0o777); err != nil {
 			harness("Mkdir: %v", err)
@@ -119,8 +132,6 @@ func newC17(r *simrun.Run) *c17 {
 		}
 		a.bd = bd
 		a.dir, _ = child.GetPair()
-		a.model = &mnode{kind: mDir, children: map[string]*mnode{}}
-		w.actions = append(w.actions, a)
 		r.Logf("%s: input root dir#%d %s", a.name, a.rootDag.id, shortDigest(a.rootDag.digest))
 	}
 	return w
@@ -360,6 +371,9 @@ func (w *c17) run() {
 	k := w.k
 	for _, a := range w.actions {
 		n := 2 + t.Choice(2)
+		if w.naive {
+			n = 1
+		}
 		for i := 0; i < n; i++ {
 			x := &walker{w: w, a: a, owner: i == 0}
 			if x.owner {
@@ -367,7 +381,11 @@ func (w *c17) run() {
 			} else {
 				x.name = fmt.Sprintf("%s-explorer%d", a.name, i)
 			}
-			x.actor = k.Spawn(x.name, x.loop)
+			if w.naive {
+				x.actor = k.Spawn(x.name, x.naiveLoop)
+			} else {
+				x.actor = k.Spawn(x.name, x.loop)
+			}
 			w.actors = append(w.actors, x.actor)
 		}
 	}
@@ -382,7 +400,7 @@ func (w *c17) run() {
 	k.Note("drain")
 	k.FaultsOn = false
 	w.stopping = true
-	for i := 0; i < 40; i++ {
+	for i := 0; i < 400; i++ {
 		done := true
 		for _, a := range w.actors {
 			if !a.Done() {
@@ -414,6 +432,14 @@ func (w *c17) run() {
 // before must load now.
 func (w *c17) finalChecks() {
 	x := &walker{w: w, name: "ctl"}
+	if w.naive {
+		for _, b := range w.g.blobs {
+			if !bytes.Equal(w.cas.blobs[casKey(b.digest)], b.data) {
+				w.violate("C17/cas-input-altered", fmt.Sprintf("blob%d changed in the CAS", b.id))
+			}
+		}
+		return
+	}
 	for _, a := range w.actions {
 		x.a = a
 		budget := 60
@@ -508,7 +534,14 @@ func (w *c17) finish() {
 		}
 	}
 	r.Count("dag_directories_unloadable", nbroken)
-	r.State(fmt.Sprintf("dirs=%d broken=%d actions=%d loaded=%d edits=%d", len(w.g.dirs), nbroken, len(w.actions), min(w.dirsLoaded, 8), min(w.edits, 4)))
+	if w.naive {
+		r.Count("naive_runs", 1)
+	}
+	r.State(fmt.Sprintf("naive=%v dirs=%d broken=%d actions=%d loaded=%d edits=%d", w.naive, len(w.g.dirs), nbroken, len(w.actions), min(w.dirsLoaded, 8), min(w.edits, 4)))
+	if w.naive {
+		r.NonTrivial = w.k.MaxParked >= 2 && (w.dirsLoaded >= 2 && w.checks >= 5 || w.brokenSeen > 0 || w.faultedOps > 0)
+		return
+	}
 	r.NonTrivial = w.dirsLoaded >= 2 && w.checks >= 5 && (w.brokenSeen > 0 || w.edits > 0 || w.faultedOps > 0 || w.refused > 0)
 }
 
